@@ -102,6 +102,10 @@ type (
 		color        string
 		converters   []*converters.CachedConverter
 		referencedBy map[string]struct{}
+		// number of the definition: every new tag and every change of a definition gets a new
+		// one, so that the result of a tagging job is only used for the definition it evaluated
+		// (the text alone may be the same again after a change and a change back)
+		version uint64
 	}
 	TagInfo struct {
 		Name           string
@@ -131,6 +135,7 @@ type (
 		nStreamRecords      int
 		nPacketRecords      int
 		nextStreamID        uint64
+		lastTagVersion      uint64
 		nUnmergeableIndexes int
 		stateFilename       string
 		allStreams          bitmask.LongBitmask
@@ -856,7 +861,7 @@ func (mgr *Manager) updateTagJob(name string, t tag, tagDetails map[string]query
 	defer verifHook("tag", 1)
 	mgr.jobs <- func() {
 		// don't touch the tag if it was modified
-		if ot, ok := mgr.tags[name]; ok && ot.definition == t.definition {
+		if ot, ok := mgr.tags[name]; ok && ot.definition == t.definition && ot.version == t.version {
 			t.color = ot.color
 			t.converters = ot.converters
 			t.referencedBy = ot.referencedBy
@@ -1076,6 +1081,8 @@ func (mgr *Manager) AddTag(name, color, queryString string) error {
 					return fmt.Errorf("unknown referenced tag %q", t)
 				}
 			}
+			mgr.lastTagVersion++
+			nt.version = mgr.lastTagVersion
 			mgr.tags[name] = nt
 			if isMark {
 				nt.Matches, _ = q.Conditions.StreamIDs(mgr.nextStreamID)
@@ -1287,6 +1294,8 @@ func (mgr *Manager) UpdateTag(name string, operation UpdateTagOperation) error {
 				newTag.color = tag.color
 				newTag.converters = tag.converters
 				newTag.referencedBy = tag.referencedBy
+				mgr.lastTagVersion++
+				newTag.version = mgr.lastTagVersion
 				newTag.Uncertain = mgr.allStreams
 				onlyBefore := map[string]struct{}{}
 				onlyAfter := map[string]struct{}{}
